@@ -14,6 +14,17 @@
 
 From Chalk Require Export Logic.Sem.
 
+(** Number of symbols of a term. *)
+Fixpoint tsize (t : ty) : N :=
+  match t with
+  | TAp f x => (tsize f + tsize x)%N
+  | _ => 1%N
+  end.
+
+(** Atoms larger than this make the exploration give up ([None]): far beyond every solver
+    limit (max_size 10 / 30), and it keeps runaway reach sets (polymorphic recursion) cheap. *)
+Definition size_cap : N := 64%N.
+
 Section Eval.
   Variable bods : ty -> list (list ty).
   Variable co : ty -> bool.
@@ -29,7 +40,8 @@ Section Eval.
         match todo with
         | [] => Some seen
         | a :: r =>
-            if memT a seen then reach f r seen
+            if N.ltb size_cap (tsize a) then None
+            else if memT a seen then reach f r seen
             else reach f (concat (bods a) ++ r) (a :: seen)
         end
     end.
@@ -48,7 +60,7 @@ Section Eval.
       + intros x bs b Hx Hbs Hb. destruct (Inv x bs b Hx Hbs Hb) as [?|[]]. assumption.
       + apply incl_refl.
       + intros x [].
-    - destruct (memT a seen) eqn:Em.
+    - destruct (N.ltb size_cap (tsize a)); [discriminate|]. destruct (memT a seen) eqn:Em.
       + apply memT_In in Em. destruct (IH r seen R H) as [C [I1 I2]].
         * intros x bs b Hx Hbs Hb. destruct (Inv x bs b Hx Hbs Hb) as [?|[?|?]]; auto. subst. auto.
         * split; [exact C|]. split; [exact I1|]. intros x [<-|Hx]; auto.
@@ -347,16 +359,36 @@ Proof. intros. eapply eval_goalx_correct; eauto. Qed.
 
 (** ** Statistics of the ground search space (the side condition of C02) *)
 
-Fixpoint tsize (t : ty) : N :=
-  match t with
-  | TAp f x => tsize f + tsize x
-  | _ => 1
-  end.
-
 Definition reach_stats (fuel : nat) (cls : list clause) (a : ty) : option (N * N) :=
   match reach (bodies cls) fuel [a] [] with
   | None => None
   | Some R => Some (fold_right (fun t m => N.max (tsize t) m) 0%N R, N.of_nat (length R))
+  end.
+
+Definition stats_join (x y : option (N * N)) : option (N * N) :=
+  match x, y with
+  | Some (m1, n1), Some (m2, n2) => Some (N.max m1 m2, (n1 + n2)%N)
+  | _, _ => None
+  end.
+
+(** Size of the search space of a whole (exists-free) goal: the largest term among all atoms
+    that any complete search has to look at, and their number.  Mirrors [eval_goalx]. *)
+Fixpoint goal_stats (fuel : nat) (P : program) (env : list clause) (rho : list ty) (g : goal) : option (N * N) :=
+  match g with
+  | GAtom a =>
+      let a' := subst (listth rho) a in
+      if groundb a' then reach_stats fuel (allc P env) a' else None
+  | GEq t1 t2 => Some (N.max (tsize (subst (listth rho) t1)) (tsize (subst (listth rho) t2)), 0%N)
+  | GAnd g1 g2 => stats_join (goal_stats fuel P env rho g1) (goal_stats fuel P env rho g2)
+  | GTrue => Some (0%N, 0%N)
+  | GForall g' => goal_stats fuel P env (TPh (fresh P env rho g') :: rho) g'
+  | GExists _ => None
+  | GIf hs g' =>
+      (* the hypotheses are part of the goal the solvers measure *)
+      let hs' := map (inst_hyp rho) hs in
+      let hsz := fold_right (fun c m => N.max (tsize (chead c)) (fold_right (fun b k => N.max (tsize b) k) m (cbody c))) 0%N hs' in
+      stats_join (Some (hsz, 0%N)) (goal_stats fuel P (hs' ++ env) rho g')
+  | GNot g' => goal_stats fuel P env rho g'
   end.
 
 (** ** Non-vacuity and sanity (tests by computation; not the property theorems) *)
